@@ -21,10 +21,19 @@ type c16Params struct {
 	Value   string // panic value kind: string | error | struct
 	Custom  bool   // custom recovery hook instead of the default LogPanic
 	NEvents int
+	Late    bool // the custom hook is installed through Config() after every handler is registered and the client is connected
+	Churn   bool // a well-behaved foreground handler registers a background handler at every event and removes the one it registered before
 }
 
 func (p c16Params) name() string {
-	return fmt.Sprintf("misbehave/%s/at=%d/of=%d/value=%s/custom=%v", p.Who, p.At, p.NEvents, p.Value, p.Custom)
+	n := fmt.Sprintf("misbehave/%s/at=%d/of=%d/value=%s/custom=%v", p.Who, p.At, p.NEvents, p.Value, p.Custom)
+	if p.Late {
+		n += "/late-hook"
+	}
+	if p.Churn {
+		n += "/churn"
+	}
+	return n
 }
 
 func c16PanicValue(kind string) interface{} {
@@ -41,7 +50,7 @@ func c16Scenario(p c16Params) *explore.Scenario {
 	sc := &explore.Scenario{
 		Family: "misbehave",
 		Name:   p.name(),
-		Params: map[string]interface{}{"who": p.Who, "at": p.At, "events": p.NEvents, "value": p.Value, "custom": p.Custom},
+		Params: map[string]interface{}{"who": p.Who, "at": p.At, "events": p.NEvents, "value": p.Value, "custom": p.Custom, "late": p.Late, "churn": p.Churn},
 		Opt:    vx.Options{MaxSteps: 400000},
 	}
 	// the event sequence: PRIVMSGs numbered 0..n-1; a built-in handler is driven into a panic by an extra
@@ -62,13 +71,14 @@ func c16Scenario(p c16Params) *explore.Scenario {
 	}
 	builtin := strings.HasPrefix(p.Who, "builtin-")
 	sc.Main = func(env *vx.Env) {
+		hook := func(conn *client.Conn, line *client.Line) {
+			if r := recover(); r != nil {
+				vx.Observe("ev", fmt.Sprintf("recovered cmd=%s value=%v type=%T", line.Cmd, r, r))
+			}
+		}
 		c := NewClient("me", func(cfg *client.Config) {
-			if p.Custom {
-				cfg.Recover = func(conn *client.Conn, line *client.Line) {
-					if r := recover(); r != nil {
-						vx.Observe("ev", fmt.Sprintf("recovered cmd=%s value=%v type=%T", line.Cmd, r, r))
-					}
-				}
+			if p.Custom && !p.Late {
+				cfg.Recover = hook
 			}
 		})
 		evNo := func(line *client.Line) int {
@@ -91,6 +101,17 @@ func c16Scenario(p c16Params) *explore.Scenario {
 			vx.Observe("ev", fmt.Sprintf("good fg-x e%d", i))
 		})
 		c.HandleFunc("PRIVMSG", good("fg-b"))
+		if p.Churn {
+			var prev client.Remover
+			c.HandleFunc("PRIVMSG", func(conn *client.Conn, line *client.Line) {
+				i := evNo(line)
+				if prev != nil {
+					prev.Remove()
+				}
+				prev = conn.HandleBG("PRIVMSG", client.HandlerFunc(func(conn *client.Conn, line *client.Line) {}))
+				vx.Observe("ev", fmt.Sprintf("good fg-churn e%d", i))
+			})
+		}
 		c.HandleBG("PRIVMSG", good("bg-a"))
 		c.HandleBG("PRIVMSG", client.HandlerFunc(func(conn *client.Conn, line *client.Line) {
 			i := evNo(line)
@@ -116,6 +137,9 @@ func c16Scenario(p c16Params) *explore.Scenario {
 			return
 		}
 		vx.Quiesce()
+		if p.Custom && p.Late {
+			c.Config().Recover = hook
+		}
 		vc.SendLines(lines...)
 		vc.SendLines("PING :still-alive")
 		vx.Quiesce()
@@ -146,6 +170,9 @@ func c16Scenario(p c16Params) *explore.Scenario {
 				if cnt(fmt.Sprintf("good %s e%d", h, i)) != 1 {
 					bad("sibling-not-delivered", fmt.Sprintf("well-behaved handler %s ran %d times for event %d", h, cnt(fmt.Sprintf("good %s e%d", h, i)), i))
 				}
+			}
+			if p.Churn && cnt(fmt.Sprintf("good fg-churn e%d", i)) != 1 {
+				bad("later-event-not-delivered", fmt.Sprintf("the foreground handler that adds and removes background handlers completed %d times for event %d", cnt(fmt.Sprintf("good fg-churn e%d", i)), i))
 			}
 			wantX := 1
 			if p.Who == "fg" && i == p.At {
@@ -280,7 +307,7 @@ func c16Scenario(p c16Params) *explore.Scenario {
 func init() {
 	Register(&Prop{
 		ID:   "C16",
-		Rule: "event sequences of 2-4 PRIVMSGs with three foreground and two background user handlers; at one event one handler misbehaves: user foreground / user background panics with a string, error or struct value, a built-in handler (PING without token, 433 without arguments, CAP with one argument) panics on its own input, or a background handler blocks for ever; default LogPanic or a custom recovery hook; every execution within the deviation budgets; distinct = distinct canonical observation per scenario",
+		Rule: "event sequences of 2-4 PRIVMSGs with three foreground and two background user handlers; at one event one handler misbehaves: user foreground / user background panics with a string, error or struct value, a built-in handler (PING without token, 433 without arguments, CAP with one argument) panics on its own input, or a background handler blocks for ever; default LogPanic or a custom recovery hook (set in the Config given to Client, or through Config() after all handlers are registered); optionally a foreground handler that registers a background handler at every event and removes the previous one; every execution within the deviation budgets; distinct = distinct canonical observation per scenario",
 		Assumptions: []string{
 			"interleavings at synchronisation/channel/socket granularity (DESIGN.md 3.8)",
 			"panic(nil) is left out: its meaning depends on the module's go directive, which the instrumented copy changes",
@@ -316,6 +343,15 @@ func init() {
 					}
 				}
 			}
+			// the recovery hook installed after the handlers were registered is the configured one
+			for _, who := range []string{"fg", "bg", "builtin-ping", "builtin-433"} {
+				add(c16Params{Who: who, At: 0, Value: "string", Custom: true, Late: true, NEvents: 2})
+			}
+			// handler registrations and removals from inside a handler while another handler misbehaves
+			add(c16Params{Who: "bg-block", At: 0, Value: "none", NEvents: 3, Churn: true})
+			add(c16Params{Who: "bg-block-all", At: 0, Value: "none", NEvents: 3, Churn: true})
+			add(c16Params{Who: "fg", At: 0, Value: "string", NEvents: 2, Churn: true})
+			add(c16Params{Who: "bg", At: 1, Value: "error", Custom: true, NEvents: 3, Churn: true})
 			add(c16Params{Who: "bg-block", At: 0, Value: "none", NEvents: 2})
 			add(c16Params{Who: "bg-block", At: 0, Value: "none", NEvents: 3})
 			add(c16Params{Who: "bg-block", At: 1, Value: "none", Custom: true, NEvents: 3})
